@@ -74,7 +74,7 @@ def cases(tier, seed):
         k = int(rng.integers(1, 9))
         chosen = [els[j] for j in rng.choice(len(els), size=k, replace=False)]
         tol = float(rng.choice([0.01, 0.1, 0.5]))
-        mode = ["plain", "perturbed", "one_nonatomic", "default_tol"][i % 4]
+        mode = ["plain", "perturbed", "one_nonatomic", "default_tol", "several_nonatomic"][i % 5]
         out.append({"kind": "file", "tol": tol, "elements": chosen, "mode": mode, "s": int(rng.integers(1 << 30)),
                     "comments": bool(rng.integers(2)), "atom_format": ["full", "atomic"][int(rng.integers(2))]})
     return out
@@ -173,11 +173,15 @@ def run_case(case, ctx):
                 others = [abs(m - x) for x in s if x != m]
                 room = min(min(others) / 2 if others else 1.0, case["tol"]) * 0.9
                 masses[i] = m + float(rng.uniform(-room, room))
-        elif mode == "one_nonatomic":
+        elif mode in ("one_nonatomic", "several_nonatomic"):
             gaps = [(lo, hi) for lo, hi in zip(s, s[1:]) if hi - lo > 2 * case["tol"] + 2e-3]
-            lo, hi = gaps[int(rng.integers(len(gaps)))]
-            j = int(rng.integers(len(masses)))
-            masses[j] = (lo + hi) / 2 if rng.integers(2) else float(rng.choice([0.3, 350.0, lo + case["tol"] + 1e-3]))
+            # several: coarse-grained beads / united atoms next to real elements - two or more masses that belong to no element
+            which = [int(rng.integers(len(masses)))] if mode == "one_nonatomic" else [int(x) for x in rng.choice(len(masses), size=min(len(masses), int(rng.integers(2, 4))), replace=False)]
+            for j in which:
+                lo, hi = gaps[int(rng.integers(len(gaps)))]
+                masses[j] = (lo + hi) / 2 if rng.integers(2) else float(rng.choice([0.3, 350.0, lo + case["tol"] + 1e-3]))
+            if len(which) >= 2:
+                st.count("file.several_masses_outside_tolerance")
     n = len(elements)
     tol = case["tol"]
     a = Atoms(atom_types=list(range(n)), positions=[[i * 1.5, 0.0, 0.0] for i in range(n)], atom_type_elements=elements,
@@ -194,7 +198,14 @@ def run_case(case, ctx):
         kw["guess_atol"] = tol
     else:
         tol = 0.1   # documented default of load_lmpdat
-    b = Atoms.load_lmpdat(io.StringIO(text), **kw)
+    try:
+        b = Atoms.load_lmpdat(io.StringIO(text), **kw)
+    except Exception as e:
+        if type(e).__name__ == "PostBroken":
+            raise
+        ctx.fail("load_lmpdat of a file with masses %s (tolerance %g) raised %s: %s - masses outside the tolerance must make all types fall back to type numbers, the others get their element" %
+                 (printed, tol, type(e).__name__, str(e)[:120]), witness={"masses": printed, "tol": tol, "mode": mode})
+        return
     st.count("file.loads")
     st.seen("file_mode", "%s/%s/%s" % (case["kind"], mode, "comments" if comments else "nocomments"))
     exps = [expected(m, tol, tab) for m in printed]
@@ -241,6 +252,8 @@ def requirements(stats, tier):
         need.append("C14 postcondition contract evaluated only %d times" % stats.get("contract_eval.C14.guess_post"))
     if stats.get("history.guesses") < 1000 or stats.get("history.expected_no_element") < 200:
         need.append("the same mass asked with several tolerances in turn: %d guesses" % stats.get("history.guesses"))
+    if stats.get("file.several_masses_outside_tolerance") < 3:
+        need.append("files with two or more masses outside the tolerance: %d" % stats.get("file.several_masses_outside_tolerance"))
     if stats.get("file.fallback_expected") < 3 or stats.get("file.elements_expected") < 3:
         need.append("load_lmpdat must be observed on both the element and the fallback path")
     return need
